@@ -1,7 +1,7 @@
 """C15 configuration for ./check (see checks/propcfg.py for the keys)."""
 CFG = {
     "modules": ["VaxisModel.Props.C15", "VaxisModel.Props.C15Err", "VaxisModel.Props.C15Gen", "VaxisModel.Props.C15Body",
-                "VaxisModel.Witness.F43", "VaxisModel.Witness.F115a", "VaxisModel.Witness.F115b"],
+                "VaxisModel.Witness.F43", "VaxisModel.Witness.F115a", "VaxisModel.Witness.F115b", "VaxisModel.Witness.F115c"],
     "extractors": ["C15"],
     "drivers": ["C15", "C15Run"],
     "stateful": True,
